@@ -49,6 +49,150 @@ pub fn run(f: &[&str]) -> Option<String> {
                 })
             }))
         }
+        ("index", 2) => {
+            let Some(b) = unhex(f[1]) else { return Some("bad-case".into()) };
+            let td = TempDir::new("c18idx");
+            let p = write_file(td.path(), "000000.win32.index", &b);
+            let ps = p.to_str().unwrap().to_string();
+            let len = b.len();
+            Some(alloc::measured(len, move || {
+                guarded(move || cls(physis::sqpack::SqPackIndex::from_existing(&ps)))
+            }))
+        }
+        ("indexq", 3) => {
+            let (Some(b), Some(q)) = (unhex(f[1]), unhex(f[2])) else { return Some("bad-case".into()) };
+            let Ok(q) = String::from_utf8(q) else { return Some("bad-case".into()) };
+            let td = TempDir::new("c18idq");
+            let p = write_file(td.path(), "000000.win32.index", &b);
+            let ps = p.to_str().unwrap().to_string();
+            let len = b.len();
+            Some(alloc::measured(len, move || {
+                guarded(move || {
+                    let Some(ix) = physis::sqpack::SqPackIndex::from_existing(&ps) else { return "none".into() };
+                    let e = ix.exists(&q);
+                    let fe = ix.find_entry(&q);
+                    let _ = ix.calculate_hash(&q);
+                    if e != fe.is_some() { "inconsistent".into() } else { "ok".into() }
+                })
+            }))
+        }
+        ("repo", 2) => {
+            use std::os::unix::ffi::OsStrExt;
+            let Some(name) = unhex(f[1]) else { return Some("bad-case".into()) };
+            if name.is_empty() || name.contains(&b'/') || name.contains(&0) || name == b"." || name == b".." {
+                return Some("bad-case".into());
+            }
+            let td = TempDir::new("c18repo");
+            let game = td.path().join("game");
+            let dir = game.join("sqpack").join(std::ffi::OsStr::from_bytes(&name));
+            if std::fs::create_dir_all(&dir).is_err() {
+                return Some("bad-case".into());
+            }
+            let gs = game.to_str().unwrap().to_string();
+            Some(alloc::measured(name.len(), move || {
+                guarded(move || {
+                    let Some(g) = physis::gamedata::GameData::from_existing(physis::common::Platform::Win32, &gs) else {
+                        return "nogame".into();
+                    };
+                    let n = g
+                        .repositories
+                        .iter()
+                        .filter(|r| matches!(r.repo_type, physis::repository::RepositoryType::Expansion { .. }))
+                        .count();
+                    if n > 0 { "some".into() } else { "none".into() }
+                })
+            }))
+        }
+        ("gd", 4) => {
+            use std::os::unix::ffi::OsStrExt;
+            let td = TempDir::new("c18gd");
+            let game = td.path().join("game");
+            let mut total = 0usize;
+            if f[1] != "-" {
+                for ent in f[1].split(',') {
+                    let Some((ph, ch)) = ent.split_once('=') else { return Some("bad-case".into()) };
+                    let Some(pb) = unhex(ph) else { return Some("bad-case".into()) };
+                    if pb.is_empty() || pb.contains(&0) || pb.starts_with(b"/") {
+                        return Some("bad-case".into());
+                    }
+                    let p = game.join(std::ffi::OsStr::from_bytes(&pb));
+                    if ch == "/" {
+                        if std::fs::create_dir_all(&p).is_err() {
+                            return Some("bad-case".into());
+                        }
+                    } else {
+                        let Some(cb) = unhex(ch) else { return Some("bad-case".into()) };
+                        total += cb.len();
+                        if let Some(parent) = p.parent() {
+                            let _ = std::fs::create_dir_all(parent);
+                        }
+                        if std::fs::write(&p, &cb).is_err() {
+                            return Some("bad-case".into());
+                        }
+                    }
+                }
+            }
+            let Some(q) = unhex(f[3]) else { return Some("bad-case".into()) };
+            let Ok(q) = String::from_utf8(q) else { return Some("bad-case".into()) };
+            let op = f[2].to_string();
+            if op != "exists" && op != "extract" {
+                return Some("bad-case".into());
+            }
+            let gs = game.to_str().unwrap().to_string();
+            Some(alloc::measured(total, move || {
+                guarded(move || {
+                    let Some(mut g) = physis::gamedata::GameData::from_existing(physis::common::Platform::Win32, &gs) else {
+                        return "ok".into();
+                    };
+                    if op == "exists" {
+                        let _ = g.exists(&q);
+                        // history independence of the crash-freedom: ask twice on the same handle
+                        let _ = g.exists(&q);
+                    } else {
+                        let _ = g.extract(&q);
+                        let _ = g.extract(&q);
+                    }
+                    "ok".into()
+                })
+            }))
+        }
+        ("leak", 4) => {
+            let (Ok(n), Some(b), Ok(off)) = (f[1].parse::<usize>(), unhex(f[2]), f[3].parse::<u64>()) else {
+                return Some("bad-case".into());
+            };
+            if n == 0 || n > 10_000 {
+                return Some("bad-case".into());
+            }
+            let td = TempDir::new("c18leak");
+            let p = write_file(td.path(), "000000.win32.dat0", &b);
+            let ps = p.to_str().unwrap().to_string();
+            Some(guarded(move || {
+                let round = |k: usize| -> (usize, usize) {
+                    let before = alloc::snapshot().live;
+                    let mut ok = 0usize;
+                    for _ in 0..k {
+                        if let Some(mut d) = physis::sqpack::SqPackData::from_existing(&ps) {
+                            if d.read_from_offset(off).is_some() {
+                                ok += 1;
+                            }
+                        }
+                    }
+                    (alloc::snapshot().live.saturating_sub(before), ok)
+                };
+                let _ = round(2); // warm-up (lazy statics)
+                let (r1, ok1) = round(n);
+                let (r2, _) = round(4 * n);
+                if ok1 != 0 {
+                    return "leak:extraction-succeeded".into();
+                }
+                // residual live bytes after the failed extractions must not grow with their number
+                if r2 > r1 + 1024 && r2 >= 2 * r1 {
+                    format!("leak:{}-bytes-per-failed-extraction", (r2 - r1) / (3 * n))
+                } else {
+                    "leak:none".into()
+                }
+            }))
+        }
         _ => None,
     }
 }
@@ -282,8 +426,297 @@ pub fn dat_seeds(rng: &mut Rng) -> Vec<(Seed, u64)> {
     ]
 }
 
+// ------------------------------------------------------------------------------------------
+// index seeds / synthetic installations
+// ------------------------------------------------------------------------------------------
+
+fn sqpack_hdr(b: &mut B, file_type: u8) {
+    b.raw(b"SqPack\0\0", true);
+    b.u8(0).zeros(3);
+    b.u32(1024).u32(1).u8(file_type).zeros(3).u32(0).u32(0).u16(0xFFFF).zeros(2);
+    b.zeros(924);
+    b.raw(&[0x22; 20], false);
+    b.zeros(44);
+    b.bound();
+}
+
+fn segment(b: &mut B, count: u32, offset: u32, size: u32) {
+    b.u32(count).u32(offset).u32(size);
+    b.raw(&[0x33; 20], false);
+    b.zeros(40);
+}
+
+/// (path, dat id, dat offset) -> index file (index1 when `index2` is false)
+pub fn index_file(entries: &[(&str, u8, u64)], index2: bool) -> B {
+    let mut b = B::new(false);
+    sqpack_hdr(&mut b, 2);
+    let rec = if index2 { 8 } else { 16 };
+    let files_off = 2048u32;
+    let files_size = (entries.len() * rec) as u32;
+    let data_off = files_off + files_size.max(16);
+    let folder_off = data_off + 256;
+    b.u32(1024);
+    // the reader divides the size by 16 for both kinds (C01's D2): give index2 twice the size so that
+    // every record is read
+    segment(&mut b, 1, files_off, if index2 { files_size * 2 } else { files_size });
+    b.zeros(4);
+    segment(&mut b, 1, data_off, 256);
+    segment(&mut b, 0, 0, 0);
+    segment(&mut b, 1, folder_off, 16);
+    b.u8(if index2 { 1 } else { 0 }).zeros(3);
+    b.zeros(656);
+    b.raw(&[0x44; 20], false);
+    b.zeros(44);
+    b.bound();
+    pad_to(&mut b, files_off as usize);
+    for (path, dat, off) in entries {
+        let data = ((*off / 8) as u32 & !0xF) | ((*dat as u32) << 1);
+        if index2 {
+            b.u32(physis::sqpack::SqPackIndex::calculate_partial_hash(path));
+            b.u32(data);
+        } else {
+            let (dir, file) = match path.rfind('/') {
+                Some(p) => (&path[..p], &path[p + 1..]),
+                None => ("", &path[..]),
+            };
+            b.u32(physis::sqpack::SqPackIndex::calculate_partial_hash(file));
+            b.u32(physis::sqpack::SqPackIndex::calculate_partial_hash(dir));
+            b.u32(data);
+            b.u32(0);
+        }
+    }
+    b.bound();
+    pad_to(&mut b, data_off as usize);
+    b.raw(&[0xFF; 256], false);
+    b.bound();
+    b.u32(0x1234).u32(files_off).u32(files_size).zeros(4);
+    b.bound();
+    b
+}
+
+fn tree_line(files: &[(Vec<u8>, Option<Vec<u8>>)]) -> String {
+    if files.is_empty() {
+        return "-".into();
+    }
+    files
+        .iter()
+        .map(|(p, c)| match c {
+            Some(c) => format!("{}={}", hex(p), hex(c)),
+            None => format!("{}=/", hex(p)),
+        })
+        .collect::<Vec<_>>()
+        .join(",")
+}
+
+fn gen_index(rng: &mut Rng, thorough: bool, out: &mut dyn Write) {
+    let entries: [(&str, u8, u64); 3] = [("exd/root.exl", 0, 128), ("exd/item.exh", 1, 0x1000), ("chara/a/b.mdl", 0, 0x800)];
+    for index2 in [false, true] {
+        for n in [0usize, 1, 3] {
+            let b = index_file(&entries[..n], index2);
+            let s = b.seed("index");
+            // a 2.3 KB file: boundaries, every field and the prefixes past the first header
+            mutate(&s, rng, thorough, out);
+            for k in (1024..s.bytes.len()).step_by(if thorough { 1 } else { 8 }) {
+                emit(out, "index", &s.bytes[..k], "");
+            }
+            // queries against the intact and a few damaged files
+            let queries: [&str; 9] =
+                ["exd/root.exl", "EXD/Root.EXL", "exd/missing.exh", "root.exl", "", "/", "exd/", "chara/a/b.mdl", "ex\u{e9}/\u{4e16}.x"];
+            for q in queries {
+                emit(out, "indexq", &s.bytes, &hex(q.as_bytes()));
+            }
+            for _ in 0..(if thorough { 60 } else { 8 }) {
+                let mut m = s.bytes.clone();
+                let i = rng.below(m.len() as u64) as usize;
+                m[i] = rng.next() as u8;
+                emit(out, "indexq", &m, &hex(b"root.exl"));
+            }
+        }
+    }
+    blobs("index", b"SqPack\0\0", rng, if thorough { 300 } else { 30 }, false, out);
+}
+
+fn gen_repo(out: &mut dyn Write) {
+    let names: Vec<Vec<u8>> = vec![
+        b"ex1".to_vec(), b"ex2".to_vec(), b"ex9".to_vec(), b"ex0".to_vec(), b"exa".to_vec(), b"e".to_vec(), b"ex".to_vec(),
+        b"a".to_vec(), b"ab".to_vec(), b"ffxiv".to_vec(), b"ex10".to_vec(), b"EX1".to_vec(), b"ex+".to_vec(), b"ex-".to_vec(),
+        b"ex1.bak".to_vec(), b".ex1".to_vec(), b"ex1.".to_vec(), b"e.1".to_vec(), b"ex.1".to_vec(), b".e1".to_vec(),
+        b"a.b.c".to_vec(), b"...".to_vec(), b"ex ".to_vec(), b"  1".to_vec(),
+        "\u{e9}x1".as_bytes().to_vec(), "a\u{e9}1".as_bytes().to_vec(), "ex\u{e9}".as_bytes().to_vec(),
+        "e\u{e9}".as_bytes().to_vec(), "\u{4e16}1".as_bytes().to_vec(), "ex\u{661}".as_bytes().to_vec(),
+        "\u{1F600}".as_bytes().to_vec(), "a\u{1F600}".as_bytes().to_vec(),
+        vec![0xFF], vec![b'e', b'x', 0xFF], vec![b'e', b'x', b'1', 0xFF], vec![0xC3], vec![b'e', b'x', 0xC3, 0x28],
+        vec![0xED, 0xA0, 0x80, b'1'], vec![b'e', b'x', b'1', b'.', 0xFF],
+    ];
+    for n in names {
+        emit(out, "repo", &n, "");
+    }
+    // every one-, two- and three-byte name over a small alphabet, and ex? / ex?z for all bytes ?
+    let alpha = [b'e', b'x', b'1', b'.', 0xC3, 0xA9, 0xFF, b' '];
+    for a in alpha {
+        if a != b'.' {
+            emit(out, "repo", &[a], "");
+        }
+        for b in alpha {
+            if !(a == b'.' && b == b'.') {
+                emit(out, "repo", &[a, b], "");
+            }
+            for c in alpha {
+                emit(out, "repo", &[a, b, c], "");
+            }
+        }
+    }
+    for c in 1..=255u8 {
+        if c != b'/' {
+            emit(out, "repo", &[b'e', b'x', c], "");
+            emit(out, "repo", &[b'e', b'x', c, b'z'], "");
+        }
+    }
+}
+
+fn gen_gd(rng: &mut Rng, thorough: bool, out: &mut dyn Write) {
+    use BlockKind::*;
+    // a dat with a standard file at 128 and a model file further on
+    let (sd, _) = standard_seed(rng, 128, &[Stored, Raw]);
+    let mut dat = sd.bytes.clone();
+    while dat.len() % 128 != 0 {
+        dat.push(0);
+    }
+    let model_at = dat.len() as u64;
+    let (md, _) = model_seed(rng, 0, [1, 1, 1, 0, 0, 0, 0, 0, 1, 0, 0], Stored);
+    dat.extend_from_slice(&md.bytes);
+    let idx = index_file(&[("exd/root.exl", 0, 128), ("exd/model.mdl", 0, model_at), ("exd/other.dat", 1, 128)], false).v;
+    let idx2 = index_file(&[("exd/root.exl", 0, 128)], true).v;
+    let ver = b"2012.01.01.0000.0000".to_vec();
+    let base = |index: Option<&[u8]>, index2: Option<&[u8]>, dat0: Option<&[u8]>| -> Vec<(Vec<u8>, Option<Vec<u8>>)> {
+        let mut t: Vec<(Vec<u8>, Option<Vec<u8>>)> = vec![
+            (b"ffxivgame.ver".to_vec(), Some(ver.clone())),
+            (b"sqpack/ffxiv".to_vec(), None),
+            (b"sqpack/ex1/ex1.ver".to_vec(), Some(ver.clone())),
+        ];
+        if let Some(i) = index {
+            t.push((b"sqpack/ffxiv/0a0000.win32.index".to_vec(), Some(i.to_vec())));
+        }
+        if let Some(i) = index2 {
+            t.push((b"sqpack/ffxiv/0a0000.win32.index2".to_vec(), Some(i.to_vec())));
+        }
+        if let Some(d) = dat0 {
+            t.push((b"sqpack/ffxiv/0a0000.win32.dat0".to_vec(), Some(d.to_vec())));
+        }
+        t
+    };
+    let queries: [&str; 8] =
+        ["exd/root.exl", "exd/model.mdl", "exd/other.dat", "exd/missing", "root.exl", "what/x.dat", "", "bg/ex1/a/b.lgb"];
+    let emit_gd = |out: &mut dyn Write, t: &[(Vec<u8>, Option<Vec<u8>>)], q: &str| {
+        for op in ["exists", "extract"] {
+            writeln!(out, "gd {} {} {}", tree_line(t), op, hex(q.as_bytes())).unwrap();
+        }
+    };
+    // intact, and with files missing
+    for q in queries {
+        emit_gd(out, &base(Some(&idx), Some(&idx2), Some(&dat)), q);
+    }
+    for q in ["exd/root.exl", "exd/other.dat"] {
+        emit_gd(out, &base(Some(&idx), None, None), q); // dat missing
+        emit_gd(out, &base(None, Some(&idx2), Some(&dat)), q); // index missing
+        emit_gd(out, &base(None, None, Some(&dat)), q);
+        emit_gd(out, &base(Some(&[]), Some(&[]), Some(&[])), q); // empty files
+        emit_gd(out, &[], q); // empty installation
+        emit_gd(out, &[(b"sqpack".to_vec(), Some(b"not a directory".to_vec()))], q);
+        // stray directories next to the repositories
+        let mut t = base(Some(&idx), Some(&idx2), Some(&dat));
+        t.push((b"sqpack/a".to_vec(), None));
+        t.push((b"sqpack/ex".to_vec(), None));
+        t.push(("sqpack/ex\u{e9}".as_bytes().to_vec(), None));
+        t.push((vec![b's', b'q', b'p', b'a', b'c', b'k', b'/', 0xFF, 0xFE], None));
+        t.push((b"sqpack/stray.txt".to_vec(), Some(b"x".to_vec())));
+        t.push((b"sqpack/ex9".to_vec(), None));
+        emit_gd(out, &t, q);
+        // the dat file is a directory
+        let mut t = base(Some(&idx), Some(&idx2), None);
+        t.push((b"sqpack/ffxiv/0a0000.win32.dat0".to_vec(), None));
+        emit_gd(out, &t, q);
+    }
+    // truncations of index and dat at structure boundaries, block-header field corruptions
+    let ib = index_file(&[("exd/root.exl", 0, 128), ("exd/model.mdl", 0, model_at)], false);
+    let mut cuts: Vec<usize> = ib.bounds.clone();
+    cuts.extend_from_slice(&[0, 1, 8, 1023, 1025, 2047, 2049, 2048 + 15, 2048 + 17]);
+    for c in cuts {
+        if c <= ib.v.len() {
+            emit_gd(out, &base(Some(&ib.v[..c]), None, Some(&dat)), "exd/root.exl");
+        }
+    }
+    let mut dcuts: Vec<usize> = sd.bounds.clone();
+    dcuts.extend(md.bounds.iter().map(|b| b + model_at as usize));
+    let n0 = dcuts.len();
+    for i in 0..n0 {
+        dcuts.push(dcuts[i] + 1);
+        dcuts.push(dcuts[i].saturating_sub(1));
+    }
+    for _ in 0..(if thorough { 200 } else { 20 }) {
+        dcuts.push(rng.below(dat.len() as u64) as usize);
+    }
+    dcuts.sort();
+    dcuts.dedup();
+    for c in dcuts {
+        if c <= dat.len() {
+            emit_gd(out, &base(Some(&idx), None, Some(&dat[..c])), if c as u64 > model_at { "exd/model.mdl" } else { "exd/root.exl" });
+        }
+    }
+    for f in sd.fields.iter() {
+        let cur = get(&dat, f);
+        for v in corrupt_values(cur, f.width) {
+            let mut m = dat.clone();
+            put(&mut m, f, v);
+            writeln!(out, "gd {} extract {}", tree_line(&base(Some(&idx), None, Some(&m))), hex(b"exd/root.exl")).unwrap();
+        }
+    }
+    for f in md.fields.iter() {
+        let ff = Field { off: f.off + model_at as usize, width: f.width, be: f.be };
+        let cur = get(&dat, &ff);
+        for v in corrupt_values(cur, ff.width).into_iter().take(if thorough { 7 } else { 4 }) {
+            let mut m = dat.clone();
+            put(&mut m, &ff, v);
+            writeln!(out, "gd {} extract {}", tree_line(&base(Some(&idx), None, Some(&m))), hex(b"exd/model.mdl")).unwrap();
+        }
+    }
+    for f in ib.fields.iter() {
+        let cur = get(&ib.v, f);
+        for v in corrupt_values(cur, f.width).into_iter().take(if thorough { 7 } else { 3 }) {
+            let mut m = ib.v.clone();
+            put(&mut m, f, v);
+            writeln!(out, "gd {} extract {}", tree_line(&base(Some(&m), None, Some(&dat))), hex(b"exd/root.exl")).unwrap();
+        }
+    }
+}
+
+fn gen_leak(rng: &mut Rng, out: &mut dyn Write) {
+    use BlockKind::*;
+    // a standard file whose only block is a stored-deflate stream with a damaged NLEN: inflate fails
+    for kinds in [&[Stored][..], &[Stored, Stored][..]] {
+        let (s, off) = standard_seed(rng, 0, kinds);
+        let mut b = s.bytes.clone();
+        // block data starts at 128 + 16; LEN/NLEN are bytes 1..5 of the stream
+        b[128 + 16 + 3] ^= 0x55;
+        writeln!(out, "leak 40 {} {}", hex(&b), off).unwrap();
+        // truncated stream: inflate needs more input
+        let mut t = s.bytes.clone();
+        let cl = u32::from_le_bytes([t[128 + 8], t[128 + 9], t[128 + 10], t[128 + 11]]);
+        t[128 + 8..128 + 12].copy_from_slice(&(cl - 2).to_le_bytes());
+        writeln!(out, "leak 40 {} {}", hex(&t), off).unwrap();
+    }
+    let (s, off) = model_seed(rng, 0, [1, 1, 1, 0, 0, 0, 0, 0, 1, 0, 0], Stored);
+    let mut b = s.bytes.clone();
+    b[256 + 16 + 3] ^= 0x55;
+    writeln!(out, "leak 25 {} {}", hex(&b), off).unwrap();
+}
+
 pub fn generate(thorough: bool, seed: u64, out: &mut dyn Write) {
     let mut rng = Rng::new(seed, "C18-arc");
+    gen_index(&mut rng, thorough, out);
+    gen_repo(out);
+    gen_gd(&mut rng, thorough, out);
+    gen_leak(&mut rng, out);
     for (mut s, off) in dat_seeds(&mut rng) {
         s.extra = off.to_string();
         mutate(&s, &mut rng, thorough, out);
